@@ -55,6 +55,11 @@ def decorate(spec, variant):
             c["lim"] = copy.deepcopy(APPL_LIM.get(c["k"], ALL_LIM))
             if variant == 3:  # a negative-rail window written in the rail's polarity: [-min, -max] is NOT ascending
                 c["lim"] = {k: ([-v[0], -v[1]] if k != "tp" else v) for k, v in c["lim"].items()}
+    if variant == 6:   # one-sided limits: one bound moved, the other left at (or beyond) the documented default; negative spelling of a lower bound
+        for c in sp["comps"]:
+            c["lim"] = {k: ([v[0], 1.0e6] if k != "tp" else [-20.0, 1.0e6]) for k, v in copy.deepcopy(APPL_LIM.get(c["k"], ALL_LIM)).items()}
+            first = sorted(c["lim"])[0]
+            c["lim"][first] = [-0.25, 2.0e6] if first != "tp" else [0.0, 1.0e6]
     if variant == 5:   # open-ended limits: +/- infinity is a legal bound (written as Infinity in the file)
         for c in sp["comps"]:
             c["lim"] = {k: ([v[0], float("inf")] if k != "tp" else [float("-inf"), v[1]]) for k, v in copy.deepcopy(APPL_LIM.get(c["k"], ALL_LIM)).items()}
@@ -109,9 +114,39 @@ def check_case(case):
         res.nontrivial = 1
         res.classes.add("e2seed")
         return res
+    elif fam == "oldformat":
+        # files in the layout of release 1.0.x (no "groups" / "rails" tables, version 1.0.0), two of them loaded one after the other in one process
+        from .. import e2
+        for sd in case["seeds"]:
+            s, _g = e2.replay(sd, [])
+            a = all_reports(s, REPORTS)
+            doc, path = save_doc(s, "of")
+            doc["system"].pop("groups", None)
+            doc["system"].pop("rails", None)
+            doc["system"]["version"] = "1.0.0"
+            with open(path, "w") as f:
+                json.dump(doc, f)
+            try:
+                s2, _ = quiet_call(System.from_file, path)
+                for rep, d in diff_reports(a, all_reports(s2, REPORTS), 1e-9, 1e-12)[:3]:
+                    res.v(("C12.old-format-file-differs", rep, sd), "%s" % d)
+                # the loaded system can be edited like any other (its registries are its own)
+                from sysloss.components import RLoss
+                s2.add_comp(list(s2._g.attrs["nodes"])[0], comp=RLoss("zz_new", rs=1.0), group="gX", rail="rX")
+                s2.del_comp("zz_new")
+                for rep, d in diff_reports(a, all_reports(s2, REPORTS), 1e-9, 1e-12)[:3]:
+                    res.v(("C12.old-format-file-after-edit-differs", rep, sd), "%s" % d)
+            except Exception as e:
+                res.v(("C12.old-format-file-raises", type(e).__name__, sd), str(e)[:200])
+        res.nontrivial = 1
+        res.classes.add("oldformat")
+        return res
     elif fam == "version":
-        spec = kind_spec("Converter", dict(vo=3.3, eff=0.9), True)
-        spec["comps"][0]["pc"] = ["a"]     # the source, the converter and a load carry phase configurations
+        if case.get("mux"):
+            spec = mux_spec([("S", "live"), ("SC", "live"), ("SH", "inact-reg")], 0, True, rails=False, by_rail=False, order=[2, 0, 1])
+        else:
+            spec = kind_spec("Converter", dict(vo=3.3, eff=0.9), True)
+            spec["comps"][0]["pc"] = ["a"]     # the source, the converter and a load carry phase configurations
     s = build_holes(spec) if case.get("holes") else build(spec)
     if case.get("delete"):   # the intermediate element of one mux input is deleted (del_childs=False): its feeder takes its slot; THEN the system is saved
         from .c05 import spec_without
@@ -237,6 +272,7 @@ def gen_cases(tier):
             yield dict(fam="tree", f=f, pal=pal, variant=0, pol=1, holes=True)
             yield dict(fam="tree", f=f, pal=pal, variant=4, pol=1)
             yield dict(fam="tree", f=f, pal=pal, variant=5, pol=1)
+            yield dict(fam="tree", f=f, pal=pal, variant=6, pol=1)
             yield dict(fam="tree", f=f, pal=pal, variant=1, pol=1, resave=True)
     if tier == "quick":
         for f in itertools.islice(mid.iter_forests(3), 0, None, 5):
@@ -267,6 +303,10 @@ def gen_cases(tier):
         yield dict(fam="e2seed", seed=sd)
         yield dict(fam="e2seed", seed=sd, hist=[["sp", [["p [ 1 ]", 1.0], ["q,  r", 2.0]]]])
     yield dict(fam="version")
+    yield dict(fam="version", mux=True)
+    sds = [x for x in e2.SEEDS if x not in ("rails", "railmux", "rerail", "blank")]
+    for a_, b_ in zip(sds, sds[1:] + sds[:1]):
+        yield dict(fam="oldformat", seeds=[a_, b_])
 
 
 def replay(doc):
